@@ -151,8 +151,82 @@ func runProgram(ctx *runner.Ctx, k cs) {
 	ctx.Outcome("program-ok/" + k.Fam)
 }
 
+// runSplit: IO.Split of a packed result gives every declared output its own bits (little-endian, declaration order).
+func runSplit(ctx *runner.Ctx, k cs) {
+	var io circuit.IO
+	packed := new(big.Int)
+	var want []*big.Int
+	off := 0
+	for i, m := range k.Members {
+		io = append(io, circuit.IOArg{Name: fmt.Sprintf("o%d", i), Type: m.T.info()})
+		v := new(big.Int)
+		v.SetString(m.Vals[0], 10)
+		want = append(want, v)
+		packed.Or(packed, new(big.Int).Lsh(v, uint(off)))
+		off += m.T.total()
+	}
+	before := new(big.Int).Set(packed)
+	got := io.Split(packed)
+	ctx.Nontrivial("split/" + shape(k.Members) + fmt.Sprint(want))
+	if packed.Cmp(before) != 0 {
+		ctx.Violate("split.modifies-argument", "IO.Split changed the value it was given: "+shape(k.Members), k)
+		return
+	}
+	if len(got) != len(want) {
+		ctx.Violate("split.arity", fmt.Sprintf("IO.Split returned %d values for %d outputs", len(got), len(want)), k)
+		return
+	}
+	for i := range want {
+		if got[i].Cmp(want[i]) != 0 {
+			ctx.Violate("split.value", fmt.Sprintf("output %d of (%s): IO.Split gives %s, the packed value holds %s (all outputs %v)", i, shape(k.Members), got[i], want[i], want), k)
+			return
+		}
+	}
+	ctx.Outcome("split-ok")
+}
+
+// splitCases: every tuple of 2..4 output widths over a small set, each member in turn all ones (the others zero),
+// and alternating patterns.
+func splitCases(quick bool) []cs {
+	ws := []int{1, 2, 7, 8, 32, 33, 65}
+	if quick {
+		ws = []int{1, 3, 8, 32, 65}
+	}
+	var cases []cs
+	ones := func(w int) string {
+		return new(big.Int).Sub(new(big.Int).Lsh(big.NewInt(1), uint(w)), big.NewInt(1)).String()
+	}
+	var rec func(cur []int, n int)
+	rec = func(cur []int, n int) {
+		if len(cur) == n {
+			for hot := -1; hot < n; hot++ {
+				var ms []Member
+				for i, w := range cur {
+					v := "0"
+					if i == hot || (hot == -1 && i%2 == 0) {
+						v = ones(w)
+					}
+					ms = append(ms, Member{T: TDesc{Kind: "uint", Bits: w}, Vals: []string{v}})
+				}
+				cases = append(cases, cs{Mode: "split", Members: ms})
+			}
+			return
+		}
+		for _, w := range ws {
+			rec(append(cur, w), n)
+		}
+	}
+	rec(nil, 2)
+	rec(nil, 3)
+	if !quick {
+		rec(nil, 4)
+	}
+	return cases
+}
+
 func programCases(quick bool) []cs {
 	var cases []cs
+	cases = append(cases, splitCases(quick)...)
 	// an unsized scalar parameter: the value written comes back
 	for _, kind := range []string{"uint", "int"} {
 		src := fmt.Sprintf("package main\nfunc main(a %s, b uint8) %s {\n\treturn a\n}\n", kind, kind)
